@@ -11,6 +11,7 @@ import (
 
 	"verif/harness/codec"
 	"verif/harness/gen"
+	"verif/harness/hook"
 	"verif/harness/mon"
 	"verif/harness/run"
 	"verif/harness/val"
@@ -168,11 +169,29 @@ func c16Parsers(c *run.C) {
 	E := m0.NEvents
 	c.ObserveMax("max_events_per_doc", E)
 	for k := 1; k <= E; k++ {
-		for entry := 0; entry < 4; entry++ {
+		for entry := 0; entry < 5; entry++ {
 			m := mon.NewMonitor()
 			m.Fail, m.FailErr = k, mon.ErrVisitor
 			var err error
 			sizes := [][]int{nil, {1}, {3, 1, 7}}[(k+entry)%3]
+			// The caller of a pull decoder or of Parser.Write sees the error
+			// and may still make its next call (the next Next of its read
+			// loop, the next Write of an io.Copy): the property promises that
+			// no further event of the refused document reaches the visitor,
+			// so those calls are made too and their events counted.
+			again := func(d codec.Decoder) {
+				err = d.Next()
+				if err == nil {
+					return
+				}
+				for i := 0; i < 3; i++ {
+					mon.Progress++
+					if d.Next() == nil {
+						c.Observe("calls_after_error_returning_nil", 1)
+					}
+					c.Observe("decoder_calls_after_error", 1)
+				}
+			}
 			ok, _ := guardCall(c, fmt.Sprintf("%s.failing-visitor.entry%d", cd.Name, entry), func() int { return m.NEvents }, func() {
 				switch entry {
 				case 0:
@@ -180,9 +199,29 @@ func c16Parsers(c *run.C) {
 				case 1:
 					_, err = cd.ParseReader(&mon.ChunkReader{Data: doc, Sizes: sizes}, m.WithRefs())
 				case 2:
-					err = cd.NewBytesDecoder(doc, m.WithRefs()).Next()
+					again(cd.NewBytesDecoder(doc, m.WithRefs()))
+				case 3:
+					again(cd.NewDecoder(&mon.ChunkReader{Data: doc, Sizes: sizes}, 16, m.WithRefs()))
 				default:
-					err = cd.NewDecoder(&mon.ChunkReader{Data: doc, Sizes: sizes}, 16, m.WithRefs()).Next()
+					p := cd.NewParser(m.WithRefs())
+					for _, ch := range mon.Chunks(doc, sizes) {
+						mon.Progress++
+						if _, werr := p.Write(ch); werr != nil {
+							if err == nil {
+								err = werr
+							} else {
+								c.Observe("writes_after_error", 1)
+							}
+						}
+					}
+					if err == nil {
+						// the failing event is delivered only at the end of input
+						if ferr, has := hook.Finalize(p); has {
+							err = ferr
+						} else {
+							err = mon.ErrVisitor // without the hook the end of input cannot be signalled
+						}
+					}
 				}
 			})
 			if !ok {
